@@ -15,6 +15,9 @@ set_option linter.unusedVariables false
 
 variable {α : Type} [Val α]
 
+/- helper lemmas live in the namespace `Rtamt.Py.Dn.GenScan` (several `GenDense*.lean` files define helpers of the same name) -/
+namespace GenScan
+
 /-! ### the mirror: one step of `dedupGo` -/
 
 /-- `out_value != prev`, where `prev` is `nan` at the start -/
@@ -164,7 +167,7 @@ theorem visitOnce_body : Gen.Dense.visitOnce.body = fwdMethodBody "max" (.neg .i
 theorem visitHistorically_body : Gen.Dense.visitHistorically.body = fwdMethodBody "min" .inf := rfl
 
 /-- `visitOnce`, translated from the source, computes the mirror's `fwdScan pmax -inf`. -/
-theorem gen_visitOnce (fuel : Nat) (s : ASig α) :
+theorem _root_.Rtamt.Py.Dn.gen_visitOnce (fuel : Nat) (s : ASig α) :
     callD fuel Gen.Dense.visitOnce [s] none [] = .ok (fwdScan pmax Val.ninf s) := by
   obtain ⟨env', h⟩ := fwdMethod_exec (callAt Gen.Dense.fns fuel depth) fuel "max" pmax (.inl rfl)
     (callAt_len fuel depth) (callAt_max fuel depth) (.neg .inf) (.uinf true) Val.ninf
@@ -174,7 +177,7 @@ theorem gen_visitOnce (fuel : Nat) (s : ASig α) :
   simp [Gen.Dense.visitOnce, h]
 
 /-- `visitHistorically`, translated from the source, computes the mirror's `fwdScan pmin inf`. -/
-theorem gen_visitHistorically (fuel : Nat) (s : ASig α) :
+theorem _root_.Rtamt.Py.Dn.gen_visitHistorically (fuel : Nat) (s : ASig α) :
     callD fuel Gen.Dense.visitHistorically [s] none [] = .ok (fwdScan pmin Val.pinf s) := by
   obtain ⟨env', h⟩ := fwdMethod_exec (callAt Gen.Dense.fns fuel depth) fuel "min" pmin (.inr rfl)
     (callAt_len fuel depth) (callAt_min fuel depth) .inf (.uinf false) Val.pinf
@@ -333,7 +336,7 @@ theorem visitEventually_body : Gen.Dense.visitEventually.body = bwdMethodBody "m
 theorem visitAlways_body : Gen.Dense.visitAlways.body = bwdMethodBody "min" .inf := rfl
 
 /-- `visitEventually`, translated from the source, computes the mirror's `backScan pmax -inf`. -/
-theorem gen_visitEventually (fuel : Nat) (s : ASig α) :
+theorem _root_.Rtamt.Py.Dn.gen_visitEventually (fuel : Nat) (s : ASig α) :
     callD fuel Gen.Dense.visitEventually [s] none [] = .ok (backScan pmax Val.ninf s) := by
   obtain ⟨env', h⟩ := bwdMethod_exec (callAt Gen.Dense.fns fuel depth) fuel "max" pmax (.inl rfl)
     (callAt_len fuel depth) (callAt_max fuel depth) (.neg .inf) (.uinf true) Val.ninf
@@ -343,7 +346,7 @@ theorem gen_visitEventually (fuel : Nat) (s : ASig α) :
   simp [Gen.Dense.visitEventually, h]
 
 /-- `visitAlways`, translated from the source, computes the mirror's `backScan pmin inf`. -/
-theorem gen_visitAlways (fuel : Nat) (s : ASig α) :
+theorem _root_.Rtamt.Py.Dn.gen_visitAlways (fuel : Nat) (s : ASig α) :
     callD fuel Gen.Dense.visitAlways [s] none [] = .ok (backScan pmin Val.pinf s) := by
   obtain ⟨env', h⟩ := bwdMethod_exec (callAt Gen.Dense.fns fuel depth) fuel "min" pmin (.inr rfl)
     (callAt_len fuel depth) (callAt_min fuel depth) .inf (.uinf false) Val.pinf
@@ -475,7 +478,7 @@ theorem fn_since_operation_eq : Gen.Dense.fn_since_operation =
 
 /-- `since_operation`, translated from the source, computes the mirror's `sinceOp` - given the contract of the translated
     `intersection` and of `split`. -/
-theorem gen_since_operation (fuel k : Nat) (hI : InterSpec α fuel k)
+theorem _root_.Rtamt.Py.Dn.gen_since_operation (fuel k : Nat) (hI : InterSpec α fuel k)
     (hsplit : ∀ a b : α, callAt Gen.Dense.fns fuel (k + 1) "split" [.val a, .val b] = .ok (encPair (a, b)))
     (l r : ASig α) (h : l.length + r.length + 4 ≤ fuel) :
     callAt Gen.Dense.fns fuel (k + 3) "since_operation" [encSig l, encSig r] = (sinceOp l r).map encSig := by
@@ -600,7 +603,7 @@ theorem fn_until_operation_eq : Gen.Dense.fn_until_operation =
 
 /-- `until_operation`, translated from the source, computes the mirror's `untilOp` - given the contract of the translated
     `intersection` and of `split`. -/
-theorem gen_until_operation (fuel k : Nat) (hI : InterSpec α fuel k)
+theorem _root_.Rtamt.Py.Dn.gen_until_operation (fuel k : Nat) (hI : InterSpec α fuel k)
     (hsplit : ∀ a b : α, callAt Gen.Dense.fns fuel (k + 1) "split" [.val a, .val b] = .ok (encPair (a, b)))
     (l r : ASig α) (h : l.length + r.length + 4 ≤ fuel) :
     callAt Gen.Dense.fns fuel (k + 3) "until_operation" [encSig l, encSig r] = (untilOp l r).map encSig := by
@@ -627,12 +630,12 @@ theorem gen_split (fuel k : Nat) (a b : α) :
   simp [runFn, Gen.Dense.fn_split, exec, evalE, mkList2, encPair]
 
 /-- `gen_since_operation` with the fact about `split` discharged. -/
-theorem gen_since_operation' (fuel k : Nat) (hI : InterSpec α fuel k) (l r : ASig α) (h : l.length + r.length + 4 ≤ fuel) :
+theorem _root_.Rtamt.Py.Dn.gen_since_operation' (fuel k : Nat) (hI : InterSpec α fuel k) (l r : ASig α) (h : l.length + r.length + 4 ≤ fuel) :
     callAt Gen.Dense.fns fuel (k + 3) "since_operation" [encSig l, encSig r] = (sinceOp l r).map encSig :=
   gen_since_operation fuel k hI (gen_split fuel k) l r h
 
 /-- `gen_until_operation` with the fact about `split` discharged. -/
-theorem gen_until_operation' (fuel k : Nat) (hI : InterSpec α fuel k) (l r : ASig α) (h : l.length + r.length + 4 ≤ fuel) :
+theorem _root_.Rtamt.Py.Dn.gen_until_operation' (fuel k : Nat) (hI : InterSpec α fuel k) (l r : ASig α) (h : l.length + r.length + 4 ≤ fuel) :
     callAt Gen.Dense.fns fuel (k + 3) "until_operation" [encSig l, encSig r] = (untilOp l r).map encSig :=
   gen_until_operation fuel k hI (gen_split fuel k) l r h
 
@@ -653,5 +656,7 @@ theorem gen_visitUntil (fuel : Nat) (hI : InterSpec α fuel 3) (l r : ASig α) (
   cases hs : untilOp l r with
   | error e => rw [hs] at h1; simp [Gen.Dense.visitUntil, exec, evalE, depth, h1]
   | ok o => rw [hs] at h1; simp [Gen.Dense.visitUntil, exec, evalE, depth, h1]
+
+end GenScan
 
 end Rtamt.Py.Dn
